@@ -303,3 +303,29 @@ prop(
     ],
     floor={"quick": 2000, "thorough": 20000},
 )
+
+prop(
+    "C05",
+    title="Parsed graphs are well-formed, deterministic and layout-independent",
+    level="exploration",
+    technique="property-based testing with JSON-level generators of schema-valid documents and metamorphic re-encodings (rapid)",
+    design_ref="DESIGN.md §5 C05",
+    rule=("rapid builds schema-valid CycloneDX 1.3-1.5 JSON (metadata component present/absent, components nested to depth 6, bom-ref present / absent / "
+          "duplicated / equal to the parent's, hashes, licences by id/name/expression, external references, dependencies) and SPDX 2.3 JSON (packages, files, "
+          "relationships incl. lower-case and unknown types, documentDescribes, hasFiles, external refs, checksums, actors, dates; resolving and non-resolving "
+          "references), each parsed from a base layout, twice, with the format stated explicitly, and from 3 re-encodings (white space, member order at every "
+          "level, \\uXXXX escapes of some/all characters, \\/). Identifier generator: arbitrary seed lists incl. invalid UTF-8 and flags in any position. "
+          "Non-trivial = nesting depth >=2 or a duplicate/missing reference, with a re-encoding that changed member order; distinct = digest of the base text."),
+    assumptions=["SPDX documents carry the mandatory documentNamespace (otherwise the document id is random by design)",
+                 "SPDXRef-DOCUMENT appears only as the source of DESCRIBES (KF-04); snippets are not generated; bom-refs outside the reserved protobom- namespace"],
+    level_text=("closedness (when the input's references resolve), non-empty ids, uniqueness as in the input, safe and unique generated ids, and equality of the "
+                "whole parsed document (reflection-based canonical form) across repeated parses, explicit-format parses and JSON re-encodings."),
+    level_note="trusts rapid and the harness's JSON encoder (harness/hx/jsonmodel.go); equality is judged on the canonical form of the complete Document message",
+    jobs=[
+        {"test": "TestC05", "checks": 1200, "timeout": 400, "thorough": {"checks": 12000, "shards": 12, "timeout": 1700}},
+        {"test": "TestC05Identifier", "checks": 3000, "timeout": 120, "thorough": {"checks": 50000, "shards": 2, "timeout": 600}},
+        {"test": "TestC05Real", "rapid": False, "timeout": 400, "thorough": {"shards": 4, "timeout": 1700}},
+        {"test": "TestC05Findings", "rapid": False, "timeout": 60},
+    ],
+    floor={"quick": 200, "thorough": 2000},
+)
